@@ -11,6 +11,8 @@ from fractions import Fraction
 
 import numpy as np
 
+from hyverif.core import digest
+
 from hyverif.oracles.gridgeom import Geom
 from hyverif.props.c06 import gen_forest
 from hyverif.oracles.flowgraph import FlowGraph
@@ -232,6 +234,9 @@ def run_voronoi_case(ctx, case):
     ctx.check("voronoi.points-unaltered", bool(np.array_equal(arg, pts)),
               "voronoi|alters-points", case, lambda: {"before": pts.tolist(),
                                                       "after": arg.tolist()})
+    ctx.presentations("voronoi", lambda p_: np.asarray(g.voronoi(cat, p_), dtype=float),
+                      [pts], w, case,
+                      np.random.default_rng(digest(pts) % 2 ** 32), n=1)
     ctx.check("voronoi.repeatable", bool(np.array_equal(w, w2)), "voronoi|second-call-differs",
               case, lambda: {"first": w.tolist(), "second": w2.tolist()})
     cnt = np.zeros(len(pts))
